@@ -349,6 +349,8 @@ def r3(chk, ctx, p, se):
 
 
 def run(chk, ctx):
+    from . import generic
+    generic.definite_assignment(chk, ctx, ['state_engine', 'state_engine_paths'], "C01.DA")   # no local is read before it is bound (UnboundLocalError = an arbitrary exception)
     p = ctx.protocol()
     se = ctx.mod("state_engine")
     r1(chk, ctx, p, se)
